@@ -65,6 +65,18 @@ def mutate(rng, s):
 
 
 def generate(tier, rng):
+    # every structured / truncated input also as a slice with spare capacity behind it (sampled for the bulk, all of the short ones)
+    n = 0
+    for op in generate0(tier, rng):
+        yield op
+        if op.startswith('cbor.det '):
+            n += 1
+            h = op[len('cbor.det '):]
+            if n % 7 == 0 or (8 <= len(h) <= 80):
+                yield 'cbor.det.cap ' + h
+
+
+def generate0(tier, rng):
     thorough = tier == 'thorough'
     yield 'cbor.det -'
     # everything the ENCODER emits must be accepted: values around every head-size threshold (incl. 2^31: a signed/unsigned slip),
